@@ -157,6 +157,21 @@ impl WorldB {
 
     fn round(&mut self, dt: u64, obs: &mut Obs) {
         let ns = self.slots.len();
+        if self.cfg.get("heal_lag") == 1 {
+            // a healed network with a latency of one round each way: what a party sent during its tick reaches the peer only
+            // after the peer's next tick, so every handshake step sees at least one update while its answer is in flight
+            for j in 0..ns {
+                self.apply_op(&Op::new(K_DELIVERALL, j as u64, 1, 0, 0), obs);
+            }
+            for j in 0..ns {
+                self.apply_op(&Op::new(K_DELIVERALL, j as u64, 0, 0, 0), obs);
+            }
+            for j in 0..ns {
+                self.apply_op(&Op::new(K_TICKCLIENT, j as u64, dt, 0, 0), obs);
+            }
+            self.apply_op(&Op::new(K_TICKSERVER, dt, 0, 0, 0), obs);
+            return;
+        }
         for j in 0..ns {
             self.apply_op(&Op::new(K_TICKCLIENT, j as u64, dt, 0, 0), obs);
         }
@@ -273,7 +288,8 @@ impl WorldB {
             // a client that is already responding needs its half-open entry: the server drops that entry when a response
             // arrives while the id is connected elsewhere, and a responding client does not send requests any more
             let last_emitted = self.ledger.iter().rev().find(|r| r.producer == Producer::Client { slot: j, epoch: s.epoch }).map(|r| r.ptype);
-            if last_emitted == Some(T_RESPONSE) && self.pend_model.get(&s.addr).map(|p| p.0 != s.tid).unwrap_or(true) {
+            // (a challenge that has reached the client counts: it answers with responses from its next update on)
+            if (last_emitted == Some(T_RESPONSE) || self.slot_challenge(j).is_some()) && self.pend_model.get(&s.addr).map(|p| p.0 != s.tid).unwrap_or(true) {
                 obs.count("epilogue.liveness_skipped_responding_without_half_open_entry");
                 continue;
             }
@@ -294,6 +310,16 @@ impl WorldB {
         for &j in &contenders {
             if !claimants.contains(&self.slots[j].addr) {
                 claimants.push(self.slots[j].addr);
+            }
+        }
+        // as may every address with handshake packets still in flight to the server (a rival whose request and response
+        // arrive back to back takes a slot without ever showing up as a half-open entry between two rounds)
+        for k in 0..ns {
+            for &ix in &self.slots[k].c2s {
+                let r = &self.ledger[ix];
+                if (r.ptype == T_REQUEST || r.ptype == T_RESPONSE) && !r.certainly_bogus && !claimants.contains(&r.src) {
+                    claimants.push(r.src);
+                }
             }
         }
         let capacity_ok = connected_now + claimants.len() <= self.max_clients_cur;
